@@ -644,3 +644,26 @@ extern "C" void harness_joinoutrecpaths() {
   else VA(r1->back_edge == &b2 && b2.outrec == r1 && r1->front_edge == &f1 && f1.outrec == r1);
   verif_reach();
 }
+
+// C01/C13 (insertion order): for two edges that leave the same point p of the scanline upwards in different directions,
+// IsValidAelOrder(resident, newcomer) holds exactly when the resident edge runs to the LEFT of the newcomer just above the scanline
+// (slope comparison in exact integers, independent of the turning-direction formula the code uses).
+#ifndef ALIM2
+#define ALIM2 1024
+#endif
+extern "C" void harness_aelorder() {
+  Point64 p(nd_range(-ALIM2, ALIM2), nd_range(-ALIM2, ALIM2));
+  Point64 rt(nd_range(-ALIM2, ALIM2), nd_range(-ALIM2, ALIM2)), nt(nd_range(-ALIM2, ALIM2), nd_range(-ALIM2, ALIM2));
+  ASSUME(rt.y < p.y && nt.y < p.y);                     // both edges go up (y decreases) from the scanline
+  Active res, nw;
+  res.top = rt; res.bot = Point64(nd_range(-ALIM2, ALIM2), nd_range(p.y, ALIM2 + 1)); res.curr_x = p.x;
+  nw.bot = p; nw.top = nt; nw.curr_x = p.x;
+  // x of each edge one unit of y above p, times the positive denominators: resident left  <=>  (rt.x-p.x)/(p.y-rt.y) < (nt.x-p.x)/(p.y-nt.y)
+  int64_t lhs = (rt.x - p.x) * (p.y - nt.y), rhs = (nt.x - p.x) * (p.y - rt.y);
+  ASSUME(lhs != rhs);                                    // different directions (the collinear tie-breaks are not covered)
+  VA(IsValidAelOrder(res, nw) == (lhs < rhs));
+  // and the order by curr_x when they differ
+  Active far = nw; far.curr_x = nd_range(-ALIM2, ALIM2); ASSUME(far.curr_x != res.curr_x);
+  VA(IsValidAelOrder(res, far) == (far.curr_x > res.curr_x));
+  verif_reach();
+}
